@@ -222,6 +222,39 @@ Theorem C12_progress_never_lost :
   exists m, journal es = map (pair (f_version f)) (firstn m (skipn (r_applied r) (f_stmts f))).
 Proof. exact (C12_progress_lemma hash hash_eqb HS). Qed.
 
+(** 12, 13. End to end, without any premise on the stored hashes: [after_attempts
+    f_old t] = the table was reached from one without a revision of the file by
+    any number of earlier attempts on the unchanged file, each with an arbitrary
+    fault stream (statements, lookups, upserts), attempted only while pending.
+    If the file is then partially applied and
+    - its applied part is edited: the next attempt, under every fault stream,
+      executes nothing, leaves the table as it is and does not end as Done (or
+      exhibits a collision between the two versions of the file);
+    - only its tail is edited: the fault-free next attempt runs exactly the new
+      tail and leaves a complete revision. *)
+Theorem C12_end_to_end_refuse :
+  forall (f_old f_new : file) (t : list (rev hash)) (r : rev hash),
+  after_attempts hash hash_eqb HS f_old t -> f_version f_new = f_version f_old ->
+  tbl_get t (f_version f_old) = Some r -> 0 < r_applied r -> r_applied r <> r_total r ->
+  firstn (r_applied r) (f_stmts f_new) <> firstn (r_applied r) (f_stmts f_old) ->
+  forall fs o t' fs' es, execute_st hash hash_eqb HS f_new t fs = (o, t', fs', es) ->
+  collision_at hash HS (f_stmts f_old) (f_stmts f_new) (r_applied r) \/
+  (exec_events es = [] /\ t' = t /\ o <> SExec ODone).
+Proof. exact (C12_end_to_end_refuse_lemma hash hash_eqb HS hash_eqb_spec). Qed.
+
+Theorem C12_end_to_end_tail :
+  forall (f_old f_new : file) (t : list (rev hash)) (r : rev hash),
+  after_attempts hash hash_eqb HS f_old t -> f_version f_new = f_version f_old ->
+  tbl_get t (f_version f_old) = Some r -> r_applied r <> r_total r ->
+  firstn (r_applied r) (f_stmts f_new) = firstn (r_applied r) (f_stmts f_old) ->
+  exists t' es r',
+    execute_st hash hash_eqb HS f_new t [] = (SExec ODone, t', [], es) /\
+    journal es = map (pair (f_version f_new)) (skipn (r_applied r) (f_stmts f_new)) /\
+    tbl_get t' (f_version f_new) = Some r' /\
+    r_applied r' = length (f_stmts f_new) /\ r_total r' = length (f_stmts f_new) /\ r_hashes r' = [] /\
+    (forall v', v' <> f_version f_new -> tbl_get t' v' = tbl_get t v').
+Proof. exact (C12_end_to_end_tail_lemma hash hash_eqb HS hash_eqb_spec). Qed.
+
 End C12.
 
 Print Assumptions C12_refuse.
@@ -238,6 +271,8 @@ Print Assumptions C12_no_panic_store.
 Print Assumptions C12_refuse_cli_apply.
 Print Assumptions C12_tail_edit_cli_apply.
 Print Assumptions C12_progress_never_lost.
+Print Assumptions C12_end_to_end_refuse.
+Print Assumptions C12_end_to_end_tail.
 
 (** Non-vacuity: a concrete table/file meeting the hypotheses of 1 and 3,
     with [HS] the identity on byte strings (a legitimate instance). *)
@@ -334,6 +369,22 @@ Example C12_store_lists_by_version_nonvacuous :
   fst (read_revisions_f bytes [a; ex_rev] []) = Some [ex_rev; a] /\
   fst (read_revisions_f bytes [a; ex_rev] [true]) = None.
 Proof. vm_compute. auto. Qed.
+
+(** [ex_rev] is what a first attempt on [ex_old] that fails at its third statement leaves behind *)
+Definition ex_file_old : file := mkFile [49%N] ex_old false.
+Example C12_end_to_end_nonvacuous :
+  after_attempts bytes bytes_eqb ex_HS ex_file_old [ex_rev] /\
+  f_version ex_file_changed = f_version ex_file_old /\ r_applied ex_rev <> r_total ex_rev /\
+  firstn (r_applied ex_rev) (f_stmts ex_file_changed) <> firstn (r_applied ex_rev) (f_stmts ex_file_old) /\
+  firstn (r_applied ex_rev) (f_stmts ex_file_tail) = firstn (r_applied ex_rev) (f_stmts ex_file_old).
+Proof.
+  split.
+  - eapply (AA_again bytes bytes_eqb ex_HS ex_file_old [] [false; false; false; false; false; false; true]).
+    + apply AA_first. reflexivity.
+    + intros r H. discriminate.
+    + vm_compute. reflexivity.
+  - vm_compute. repeat split; auto; discriminate.
+Qed.
 
 (** Clause (a) is needed. With a store that reports a failing lookup as
     "revision does not exist" ([execute_st_lax]: `if err != nil { return nil,
